@@ -78,6 +78,26 @@ func c10Formats() []*recFormat {
 			OK:   []string{`{"id": "a", "qty": 1, "tags": ["x", "y"]}`, `{"id": "b", "qty": 2, "tags": [], "ts": "2020-01-02", "code": "k1"}`, `{"id": "c", "qty": 3}`, `{"id": "d", "qty": 4, "tags": ["é"], "code": "k2"}`},
 			Fail: map[string][]string{"cast": {`{"id": "e", "qty": "bad"}`, `{"id": "e2", "qty": 1.5}`}, "func": {`{"id": "f", "qty": 6, "ts": "garbage"}`}, "js": {`{"id": "g", "qty": 7, "code": "BAD-secret"}`}},
 			Wrap: func(r []string) string { return "[" + strings.Join(r, ",\n ") + "]" }},
+		// blocks: a plain (non-target, non-group) parent record with several child record types, the target among them; the
+		// parent repeats, so whatever a finished parent instance leaves behind meets the next one
+		{Name: "csv2-nested", Schema: `{"parser_settings": {"version": "omni.2.1", "file_format_type": "csv2"},
+ "file_declaration": {"delimiter": ",", "records": [{"name": "P", "header": "^P,", "min": 0, "columns": [{"name": "pid", "index": 2}],
+   "child_records": [{"name": "N", "header": "^N,", "min": 0, "columns": [{"name": "note", "index": 2}]},
+                     {"name": "A", "header": "^A,", "is_target": true, "min": 0, "columns": [{"name": "id", "index": 2}, {"name": "qty", "index": 3}]},
+                     {"name": "B", "header": "^B,", "min": 0, "columns": [{"name": "tail", "index": 2}]}]}]},
+ "transform_declarations": {"FINAL_OUTPUT": {"object": {"id": {"xpath": "id"}, "qty": {"xpath": "qty", "type": "int"}, "pid": {"xpath": "../pid"}, "note": {"xpath": "../N/note"}}}}}`,
+			OK:   []string{"P,p1\nN,n1\nA,a,1\nB,b1\n", "P,p2\nA,b,2\n", "P,p3\nN,n3\nA,c,3\nB,b3\nB,b4\n", "P,p4\nA,e,5\nB,b5\n"},
+			Fail: map[string][]string{"cast": {"P,p5\nN,n5\nA,f,bad\nB,b6\n"}, "multi": {"P,p6\nN,n6\nN,n7\nA,g,7\n"}},
+			Wrap: join("")},
+		{Name: "fixedlength2-nested", Schema: `{"parser_settings": {"version": "omni.2.1", "file_format_type": "fixedlength2"},
+ "file_declaration": {"envelopes": [{"name": "P", "header": "^P", "min": 0, "columns": [{"name": "pid", "start_pos": 2, "length": 3}],
+   "child_envelopes": [{"name": "N", "header": "^N", "min": 0, "columns": [{"name": "note", "start_pos": 2, "length": 3}]},
+                       {"name": "A", "header": "^A", "is_target": true, "min": 0, "columns": [{"name": "id", "start_pos": 2, "length": 2}, {"name": "qty", "start_pos": 4, "length": 3}]},
+                       {"name": "B", "header": "^B", "min": 0, "columns": [{"name": "tail", "start_pos": 2, "length": 3}]}]}]},
+ "transform_declarations": {"FINAL_OUTPUT": {"object": {"id": {"xpath": "id"}, "qty": {"xpath": "qty", "type": "int"}, "pid": {"xpath": "../pid"}, "note": {"xpath": "../N/note"}}}}}`,
+			OK:   []string{"Pp01\nNn01\nAa1001\nBb01\n", "Pp02\nAa2002\n", "Pp03\nNn03\nAa3003\nBb03\nBb04\n", "Pp04\nAa5005\nBb05\n"},
+			Fail: map[string][]string{"cast": {"Pp05\nNn05\nAa6bad\nBb06\n"}, "multi": {"Pp06\nNn06\nNn07\nAa7007\n"}},
+			Wrap: join("")},
 		// declarations whose own shape is computed from the record: xpath_dynamic built by nested and by one-level function
 		// calls, by a field, inside an array and inside a template; functions of functions of fields
 		{Name: "json-dyn", Schema: `{"parser_settings": {"version": "omni.2.1", "file_format_type": "json"},
